@@ -144,7 +144,9 @@ def _upper_literals():
     return keys
 
 
-KEYS = _upper_literals() + ["ZZFRESH", "X"]
+# near misses of the keys the code special-cases (a prefix/suffix test instead of equality would confuse them)
+NEAR_MISS = [k + "X" for k in ("NOTES", "NOTES2", "NOTEDATA", "ATTACKS", "DISPLAYBPM", "VERSION")] + ["X" + k for k in ("NOTES", "NOTEDATA", "ATTACKS")] + ["NOTESKIN", "NOTE"]
+KEYS = _upper_literals() + ["ZZFRESH", "X"] + NEAR_MISS
 SM_KEYS = [k for k in KEYS if k != "NOTES"]
 SSC_KEYS = [k for k in KEYS if k != "NOTEDATA"]
 
